@@ -13,6 +13,12 @@ def gen(tier, rnd):
     for k in range(10 if tier == 'quick' else 80):
         app = rnd.choice([2, 4, 4, 8]); m = rnd.choice([1, 2, 4, 4]); n = rnd.choice([app, app, 2 * app, 3 * app])
         L.append('clp %d %d 6000 %d %s' % (rnd.choice([1, 2]), m, app, ','.join(rnd.choice(['I', 'I', 'I', 'D100']) for _ in range(n))))
+    # warm connections: a first batch establishes the connections, then the application threads are released together again and
+    # again on connections that are established and idle (many rounds: the window of a non-atomic claim is a few instructions wide)
+    for k in range(4 if tier == 'quick' else 24):
+        app = rnd.choice([4, 8, 16]); m = rnd.choice([2, 4, 4])
+        rounds = 300 if tier == 'quick' else 600
+        L.append('clp %d %d 6000 %d %s' % (rnd.choice([1, 2]), m, app, ',/,'.join(','.join('I' for _ in range(app)) for _ in range(rounds))))
     N = 24 if tier == 'quick' else 300
     for _ in range(N):
         threads = rnd.choice([1, 1, 2, 3]); m = rnd.choice([1, 1, 2, 3, 4]); n = rnd.choice([1, 2, 3, 5, 8, 12] if tier == 'quick' else [1, 2, 3, 5, 8, 12, 20, 40])
@@ -64,10 +70,10 @@ def oracle(ln, out):
 
 def classify(ln, out):
     w = ln.split()
-    if w[0] == 'clp': return ('clp', w[1], w[2], w[4], len(w[5].split(',')), out.count('rej:'), out.count('pending'))
+    if w[0] == 'clp': return ('clp', w[1], w[2], w[4], min(len(w[5].split(',')), 50), w[5].count('/') > 0, out.count('rej:'), out.count('pending'))
     return (w[1], w[2], tuple(b[0] + ('t' if ':t' in b else '') for b in w[4].split(',')), out.count('rej:'), out.count('pending'))
 
-RULE = ('1..4 successive batches (each issued when the previous one is settled) of 1..12 (thorough 40) requests issued at once through one real client (from one application thread; op clp: by 2..8 application threads released together on a fresh client) (1..3 threads, connection limit 1..4) to a scripted raw server that answers each request by its tag: immediately, chunked, byte-dribbled, '
+RULE = ('1..4 successive batches (each issued when the previous one is settled) of 1..12 (thorough 40) requests issued at once through one real client (from one application thread; op clp: by 2..8 application threads released together on a fresh client, and released together again - request builders prepared beforehand, straight into send() - on each of 300 (thorough 600) further batches on warm idle connections) (1..3 threads, connection limit 1..4) to a scripted raw server that answers each request by its tag: immediately, chunked, byte-dribbled, '
         'delayed (before or after the client\'s time-out), never, or closing after the answer; each promise\'s outcome and settlement count and the peak number of connections open on the client side are compared with the '
         'model (pool dispatch + virtual-time schedule) and checked by a direct oracle. non-trivial = distinct (threads, limit, behaviour pattern, #rejected, #pending)')
 ASSUME = ['the server answers the requests of one connection in order (HTTP/1.1 without pipelining)', 'delays are kept 250 ms away from time-outs',
